@@ -23,6 +23,7 @@ RULE = (
     "Distinct by rendered expression."
 )
 ASSUMPTIONS = [
+    "expressions whose reference automaton has 1500 or more states are not judged (compilation time grows with the automaton, which nested counted groups make exponential in the text; a time limit cannot tell slow from stuck)",
     "{n,m} with m < n is unspecified upstream and not generated",
     "'rejected' = Schema(...) raises any exception (the port signals malformed expressions with SyntaxError, and with "
     "TypeError when the expression ends where an atom is expected)",
@@ -102,6 +103,9 @@ def generate(R: Draw, tier: str) -> dict:
     return {"mode": R.choice(["block", "block", "inline"]), "expr": s, "malformed_by_construction": True}
 
 
+LARGE_AUTOMATON = 1500  # reference derivative states; above this a case is inconclusive (see check)
+
+
 def spec_for(case: dict) -> dict:
     if case["mode"] == "block":
         return {
@@ -143,6 +147,11 @@ def check(case: dict, ctx: Ctx) -> None:
     except SpecError as e:
         rs = None
         ref_err = str(e)
+    if rs is not None and len(rx.states(rs.content["host"], limit=LARGE_AUTOMATON)) >= LARGE_AUTOMATON:
+        # nested counted groups / ambiguous repetitions unfold to automata of tens of thousands of states; compiling
+        # them takes minutes without being wrong, and a time limit could not tell slow from stuck: inconclusive
+        ctx.label("skipped:automaton-too-large")
+        return
     o = call("schema", Schema, spec, reject=(Exception,))
     if rs is None:
         require(not o.ok, "reject:accepted-malformed", f"Schema accepted {case['expr']!r}; reference: {ref_err}")
